@@ -148,6 +148,9 @@ func writeCollection(ext extractor, elementCodec Codec, size int, version primit
 					// which would indicate NULL. As C* 2.x does not support NULL collection elements,
 					// we are returning an error
 					return nil, collectionElementNil()
+				} else if len(encodedElem) > math.MaxUint16 {
+					// Protocol V2 writes the length of collection elements as a [short]
+					return nil, errCannotEncodeElement(i, collectionElementTooLarge(len(encodedElem), math.MaxUint16))
 				}
 				_ = primitive.WriteShortBytes(encodedElem, buf)
 			}
